@@ -1,4 +1,4 @@
-import LogosModel.SkipTransparent
+import LogosModel.Gaps
 import LogosModel.Theorems.NonVacuity
 /-!
 # Non-vacuity of `C13_skip_transparent`
@@ -35,5 +35,14 @@ example (inp : List Nat) (hb : ∀ b ∈ inp, b < 256) :
   · intro l s r
     show (if l = 1 then (⟨.skip, 0⟩ : CbOut) else ⟨.emit, if r.length > 0 then 1 else 0⟩).act ≠ .errCustom 7
     split <;> simp
+
+end Logos.NonVacuity
+
+/-! ## `C03_gaps_are_skipped_matches`: the marked run of the example covers `abaab` end to end -/
+namespace Logos.NonVacuity
+
+example : Contig 0 [.err (some 7) 0 2, .ok 0 2 5] 5 := by simp [Contig, Item.start, Item.stop]
+
+example : ¬ Contig 0 [.ok 0 2 5] 5 := by simp [Contig, Item.start]
 
 end Logos.NonVacuity
